@@ -244,6 +244,79 @@ fn via_condvar(e: &'static Engine, workers: usize, timed: bool, others: &'static
     e.note(&out);
 }
 
+/// The "first grab" branch of lock(): a locker whose try failed registers its blocker, then counts itself; if the count was 0
+/// the lock was released in between and the locker serves the *oldest* registration, which need not be its own.
+/// The main thread holds the lock; D and then B are each held (breakpoint) between their registration and their count;
+/// the main thread unlocks (nobody is counted, nobody is woken) and lets both go. `rw`: the same on RwLock::write.
+/// `cancel_head`: B is additionally held between its count (0: first grab) and its pop; D counts itself, parks and is
+/// cancelled there, so the registration B pops belongs to a waiter that is gone and has left a release to forward.
+/// Oracle: mutual exclusion, everybody who is not cancelled gets the lock, the lock is free at the end.
+pub fn first_grab(e: &'static Engine, workers: usize, rw: bool, b_thread: bool, cancel_head: bool) {
+    rt_init(workers);
+    let m = Arc::new(Mutex::new(0u32));
+    let l = Arc::new(may::sync::RwLock::new(0u32));
+    let (reg, grab) = if rw { ("rwlock.lock.registered", "rwlock.lock.first_grab") } else { ("mutex.lock.registered", "mutex.lock.first_grab") };
+    let gm = if rw { None } else { Some(m.lock().unwrap()) };
+    let gl = if rw { Some(l.write().unwrap()) } else { None };
+    e.begin();
+    let body = move |m: Arc<Mutex<u32>>, l: Arc<may::sync::RwLock<u32>>| {
+        if rw {
+            let mut g = l.write().unwrap();
+            critical(e, &mut g);
+        } else {
+            let mut g = m.lock().unwrap();
+            critical(e, &mut g);
+        }
+    };
+    let bp_d = e.break_at(reg);
+    let (m1, l1) = (m.clone(), l.clone());
+    let d = go!(move || body(m1, l1));
+    e.wait_hit(bp_d);
+    let bp_b = e.break_at(reg);
+    let (m2, l2) = (m.clone(), l.clone());
+    let b = spawn_part(e, if b_thread { 'T' } else { 'C' }, move || body(m2, l2));
+    e.wait_hit(bp_b);
+    // both are registered, nobody is counted: the unlock finds no waiter
+    drop(gm);
+    drop(gl);
+    let mut d_cancelled = false;
+    if cancel_head {
+        let bp_g = e.break_at(grab);
+        e.release(bp_b);
+        e.wait_hit(bp_g);
+        e.release(bp_d);
+        // D has counted itself and is parked
+        e.quiesce();
+        unsafe { d.coroutine().cancel() };
+        d_cancelled = true;
+        e.quiesce();
+        e.release(bp_g);
+    } else {
+        e.release(bp_b);
+        e.release(bp_d);
+    }
+    match d.join() {
+        Ok(()) => {}
+        Err(p) if d_cancelled && p.downcast_ref::<generator::Error>().is_some() => {}
+        Err(_) => e.fail("unexpected_panic", "the first registered locker panicked"),
+    }
+    if join_part(e, b).is_err() {
+        e.fail("unexpected_panic", "the second registered locker panicked");
+    }
+    if DOUBLE.load(Ordering::SeqCst) {
+        e.fail("mutual_exclusion", "two participants were inside the critical section at the same time");
+    }
+    let free = if rw { l.try_write().is_ok() } else { m.try_lock().is_ok() };
+    if !free {
+        e.fail("not_released", "everybody is done but the lock is not free");
+    }
+    // and it still works
+    let (m3, l3) = (m.clone(), l.clone());
+    let t = e.spawn("late_locker", move || body(m3, l3));
+    e.join(t);
+    e.note(&format!("entries={}", ENTRIES.load(Ordering::SeqCst)));
+}
+
 fn mk(workers: usize, parts: &'static [(char, &'static str)], main_ops: &'static str, cancel: Option<usize>) -> Scenario {
     let name = format!(
         "mutex.{}.main{}{}{}",
@@ -305,6 +378,19 @@ pub fn build(quick: bool) -> Vec<Scenario> {
                     .tier(quick),
                 );
             }
+        }
+    }
+    // the first-grab branch of lock()
+    for w in [1usize, 2] {
+        for (bt, ch) in [(true, false), (false, false), (true, true), (false, true)] {
+            if quick && w == 1 && !bt {
+                continue;
+            }
+            v.push(
+                Scenario::new("C05", "mutex_first_grab", format!("mutex.first_grab.{}{}.w{}", if bt { "CT" } else { "CC" }, if ch { ".head_cancelled" } else { "" }, w), Arc::new(move |e| first_grab(e, w, false, bt, ch)))
+                    .vt_horizon(100_000_000)
+                    .bound(2),
+            );
         }
     }
     // store-buffer model (x86-TSO on the shim atomics): the cancel / hand-off handshake of SyncBlocker
